@@ -84,6 +84,88 @@ func opaqueEq(a, b *Opaque) Bool {
 	}
 }
 
+// decimalEq: does the decimal rendering of the integer (strconv/%d: no
+// leading zeros, '-' for negatives) equal the given bytes?
+func decimalEq(o *Opaque, b []Int) Bool {
+	k := len(b)
+	if k > 8 {
+		panic(inconclusive{"comparison of a formatted integer with more than 8 bytes"})
+	}
+	w := o.I.W
+	it := o.I.term().S
+	isDigit := func(j int) string {
+		t := b[j].term().S
+		return "(and (bvuge " + t + " #x30) (bvule " + t + " #x39))"
+	}
+	val := func(from int) string {
+		parts := []string{bvLit(0, w)}
+		mul := uint64(1)
+		for j := k - 1; j >= from; j-- {
+			parts = append(parts, fmt.Sprintf("(bvmul ((_ zero_extend %d) (bvsub %s #x30)) %s)", int(w)-8, b[j].term().S, bvLit(mul, w)))
+			mul *= 10
+		}
+		return "(bvadd " + strings.Join(parts, " ") + ")"
+	}
+	conj := func(from int) []string {
+		var cs []string
+		for j := from; j < k; j++ {
+			cs = append(cs, isDigit(j))
+		}
+		if k-from > 1 {
+			cs = append(cs, "(not (= "+b[from].term().S+" #x30))")
+		}
+		return cs
+	}
+	pos := append(conj(0), "(= "+it+" "+val(0)+")")
+	if o.I.S && o.Kind == "d" {
+		pos = append(pos, "(bvsge "+it+" "+bvLit(0, w)+")")
+	}
+	alts := []string{"(and " + strings.Join(pos, " ") + ")"}
+	if o.Kind == "d" && o.I.S && k >= 2 {
+		neg := append([]string{"(= " + b[0].term().S + " #x2d)", "(not (= " + b[1].term().S + " #x30))"}, conj(1)...)
+		neg = append(neg, "(= "+it+" (bvneg "+val(1)+"))")
+		alts = append(alts, "(and "+strings.Join(neg, " ")+")")
+	}
+	return mkBoolT(&Term{S: "(or false " + strings.Join(alts, " ") + ")"})
+}
+
+func oneOpaqueEq(a, b []Int) (Bool, bool) {
+	if hasOpaque(b) {
+		return Bool{}, false
+	}
+	p := -1
+	for i := range a {
+		if a[i].X != nil {
+			if p >= 0 {
+				return Bool{}, false
+			}
+			p = i
+		}
+	}
+	if p < 0 || (a[p].X.Kind != "d" && a[p].X.Kind != "u") {
+		return Bool{}, false
+	}
+	tail := len(a) - p - 1
+	mid := len(b) - p - tail
+	if mid < 1 {
+		return Bool{C: false}, true
+	}
+	r := Bool{C: true}
+	for i := 0; i < p; i++ {
+		r = band(r, eqInt(a[i], b[i]))
+	}
+	for i := 0; i < tail; i++ {
+		r = band(r, eqInt(a[len(a)-1-i], b[len(b)-1-i]))
+	}
+	if r.T == nil && !r.C {
+		return r, true
+	}
+	if mid > 8 {
+		return Bool{}, false
+	}
+	return band(r, decimalEq(a[p].X, b[p:p+mid])), true
+}
+
 // bytesEq is piecewise equality of two strings.
 func bytesEq(a, b []Int) Bool {
 	if !hasOpaque(a) && !hasOpaque(b) {
@@ -102,6 +184,21 @@ func bytesEq(a, b []Int) Bool {
 	// an opaque piece (a formatted number or text) is never empty
 	if len(a) == 0 || len(b) == 0 {
 		return Bool{C: len(a) == len(b)}
+	}
+	// a whole string that is one formatted integer against plain bytes
+	if len(a) == 1 && a[0].X != nil && (a[0].X.Kind == "d" || a[0].X.Kind == "u") && !hasOpaque(b) {
+		return decimalEq(a[0].X, b)
+	}
+	if len(b) == 1 && b[0].X != nil && (b[0].X.Kind == "d" || b[0].X.Kind == "u") && !hasOpaque(a) {
+		return decimalEq(b[0].X, a)
+	}
+	// exactly one formatted integer inside one string, plain bytes in the
+	// other: the pieces around it align with both ends of the other string
+	if r, ok := oneOpaqueEq(a, b); ok {
+		return r
+	}
+	if r, ok := oneOpaqueEq(b, a); ok {
+		return r
 	}
 	// aligned comparison only
 	if len(a) != len(b) {
